@@ -16,6 +16,8 @@ package main
 // first line and extra items in front of the first line): the result must not change.
 
 import (
+	"net/netip"
+	"math"
 	"encoding/hex"
 	"errors"
 	"fmt"
@@ -96,7 +98,7 @@ func ciBuild(spec string, variant bool) (res fox.ClientIPResolver, kind string, 
 		return r, "single", name, nil
 	case "left":
 		k, h := ciKey(p[1])
-		limit, _ := strconv.ParseUint(p[2], 10, 32)
+		limit, _ := strconv.ParseUint(p[2], 10, 64)
 		var opts []clientip.BlacklistRangeOption
 		if p[3] != "-" {
 			for _, c := range p[3] {
@@ -137,7 +139,7 @@ func ciBuild(spec string, variant bool) (res fox.ClientIPResolver, kind string, 
 		return r, "rnp", h, nil
 	case "count":
 		k, h := ciKey(p[1])
-		n, _ := strconv.ParseUint(p[2], 10, 32)
+		n, _ := strconv.ParseUint(p[2], 10, 64)
 		r, e := clientip.NewRightmostTrustedCount(k, uint(n))
 		if e != nil {
 			return nil, "count", h, errCfg
@@ -411,6 +413,13 @@ func runClientIP(fields []string) string {
 	if oracle == "" && (kind == "rnp" || kind == "count" || kind == "range") {
 		oracle = ciSpoofCheck(res, hdr, h, remote, direct)
 	}
+	if oracle == "" && kind == "range" {
+		if p := strings.Split(rspec, "."); len(p) == 3 {
+			if nets, err := ciRanges(p[2]); err == nil {
+				oracle = ciRangeTextOracle(nets)
+			}
+		}
+	}
 	j := direct
 	if strings.HasPrefix(j, "err") {
 		j = "err"
@@ -670,24 +679,84 @@ func ciOpts(r *Rng) string {
 	return s
 }
 
+// ciEncodeRanges turns range texts into the numeric form of the case line. It does NOT go through the code under test:
+// a prefix is read with net/netip and masked; a bare address is the range that contains only itself - 32 bits for an
+// IPv4 address (also when written ::ffff:a.b.c.d), 128 bits otherwise.
 func ciEncodeRanges(texts []string) string {
-	nets, err := clientip.AddressesAndRangesToIPNets(texts...)
-	if err != nil {
-		panic(err)
-	}
-	if len(nets) == 0 {
+	if len(texts) == 0 {
 		return "-"
 	}
-	parts := make([]string, len(nets))
-	for i, n := range nets {
-		ones, bits := n.Mask.Size()
+	parts := make([]string, len(texts))
+	for i, t := range texts {
+		var ip []byte
+		var ones int
+		if strings.Contains(t, "/") {
+			pfx, err := netip.ParsePrefix(t)
+			if err != nil {
+				panic(err)
+			}
+			pfx = pfx.Masked()
+			ones = pfx.Bits()
+			if pfx.Addr().Is4() {
+				b := pfx.Addr().As4()
+				ip = b[:]
+			} else {
+				b := pfx.Addr().As16()
+				ip = b[:]
+			}
+		} else {
+			a, err := netip.ParseAddr(t)
+			if err != nil {
+				panic(err)
+			}
+			if a.Unmap().Is4() {
+				b := a.Unmap().As4()
+				ip, ones = b[:], 32
+			} else {
+				b := a.As16()
+				ip, ones = b[:], 128
+			}
+		}
 		fam := 6
-		if bits == 32 {
+		if len(ip) == 4 {
 			fam = 4
 		}
-		parts[i] = fmt.Sprintf("%d/%s/%d", fam, hex.EncodeToString(n.IP), ones)
+		parts[i] = fmt.Sprintf("%d/%s/%d", fam, hex.EncodeToString(ip), ones)
 	}
 	return strings.Join(parts, "+")
+}
+
+// ciRangeTextOracle: AddressesAndRangesToIPNets reads every spelling of a range as that range. The numeric ranges of the
+// case are spelled out again - prefix notation, and for single addresses the bare address in its usual form, as
+// ::ffff:a.b.c.d (IPv4) and with a dotted-quad tail (IPv6) - and the function must give back the numeric range.
+func ciRangeTextOracle(nets []net.IPNet) string {
+	for _, n := range nets {
+		ones, bits := n.Mask.Size()
+		texts := []string{n.IP.String() + "/" + strconv.Itoa(ones)}
+		if len(n.IP) == 16 && n.IP.To4() != nil {
+			texts[0] = "::ffff:" + n.IP.To4().String() + "/" + strconv.Itoa(ones)
+		}
+		if ones == bits {
+			if bits == 32 {
+				texts = append(texts, n.IP.String(), "::ffff:"+n.IP.String())
+			} else if n.IP.To4() == nil {
+				ip := n.IP
+				texts = append(texts, ip.String(), fmt.Sprintf("%x:%x:%x:%x:%x:%x:%d.%d.%d.%d", uint16(ip[0])<<8|uint16(ip[1]), uint16(ip[2])<<8|uint16(ip[3]),
+					uint16(ip[4])<<8|uint16(ip[5]), uint16(ip[6])<<8|uint16(ip[7]), uint16(ip[8])<<8|uint16(ip[9]), uint16(ip[10])<<8|uint16(ip[11]), ip[12], ip[13], ip[14], ip[15]))
+			}
+		}
+		for _, t := range texts {
+			got, err := clientip.AddressesAndRangesToIPNets(t)
+			if err != nil || len(got) != 1 {
+				return fmt.Sprintf("AddressesAndRangesToIPNets(%q) = %v, %v", t, got, err)
+			}
+			go1, gb := got[0].Mask.Size()
+			if go1 != ones || gb != bits || !got[0].IP.Equal(n.IP) {
+				return fmt.Sprintf("AddressesAndRangesToIPNets(%q) = %s/%d of %d bits, the text denotes %s/%d of %d bits", t, got[0].IP, go1, gb, n.IP, ones, bits)
+			}
+		}
+	}
+	return ""
 }
 
 func ciRangeSpec(r *Rng) string {
@@ -840,9 +909,27 @@ func ciProbeCases() []string {
 	return out
 }
 
+// ciFixedCases: configurations at the edge of what the option types can express
+func ciFixedCases() []string {
+	xff := func(v string) string { return hx("X-Forwarded-For") + "=" + hx(v) }
+	huge := strconv.FormatUint(math.MaxUint64, 10)
+	return []string{
+		// single trusted addresses written with an embedded dotted quad / as IPv4-mapped: they trust one address each
+		"clientip\trange.x." + ciEncodeRanges([]string{"64:ff9b::10.0.0.1", "10.0.0.0/8"}) + "\t" + xff("9.9.9.9, 64:ff9b::5, 64:ff9b::a00:1") + "\t" + hx("192.0.2.1:1234"),
+		"clientip\trange.x." + ciEncodeRanges([]string{"::ffff:10.0.0.1"}) + "\t" + xff("8.8.8.8, 10.0.0.2, 10.0.0.1") + "\t" + hx("192.0.2.1:1234"),
+		"clientip\trange.x." + ciEncodeRanges([]string{"2001:db8::192.0.2.33", "2001:db8::1"}) + "\t" + xff("8.8.8.8, 2001:db8::c000:222, 2001:db8::c000:221") + "\t" + hx("192.0.2.1:1234"),
+		"clientip\trnp.x.-\t" + xff("8.8.8.8, 64:ff9b::a00:1") + "\t" + hx("192.0.2.1:1234"),
+		// "no limit" written as the largest value of the option's type
+		"clientip\tleft.x." + huge + ".-\t" + xff("10.0.0.1, 8.8.8.8, 9.9.9.9") + "\t" + hx("192.0.2.1:1234"),
+		"clientip\tleft.f." + huge + ".P\t" + hx("Forwarded") + "=" + hx("for=192.168.1.1, for=\"[2606:4700::1]\"") + "\t" + hx("192.0.2.1:1234"),
+		"clientip\tleft.x.9223372036854775808.-\t" + xff("8.8.4.4") + "\t" + hx("192.0.2.1:1234"),
+		"clientip\tcount.x." + huge + "\t" + xff("8.8.4.4, 1.1.1.1") + "\t" + hx("192.0.2.1:1234"),
+	}
+}
+
 func genClientIP(r *Rng, tier string, n int, emit func(string)) {
 	count := 0
-	for _, c := range ciProbeCases() {
+	for _, c := range append(ciProbeCases(), ciFixedCases()...) {
 		if count >= n {
 			return
 		}
